@@ -15,6 +15,7 @@ fn to_rot_q(d: &mut Draw) -> Outcome {
     d.note("y (sin,cos)", &(y.s, y.c));
     d.note("z (sin,cos)", &(z.s, z.c));
     let e = Euler { x: Rad(x.theta), y: Rad(y.theta), z: Rad(z.theta) };
+    ensure_eq!(Euler::new(Rad(x.theta), Rad(y.theta), Rad(z.theta)), e, "euler-new", "Euler::new(x, y, z) field order");
     let want = rot_x(x.s, x.c).mul(&rot_y(y.s, y.c)).mul(&rot_z(z.s, z.c));
     ensure_eq!(Matrix3::from(e).rm(), want, "matrix3-xyz", "Matrix3::from(Euler) vs Rx Ry Rz");
     ensure_eq!(Matrix4::from(e).rm(), want.embed(4), "matrix4-xyz", "Matrix4::from(Euler) vs Rx Ry Rz embedded");
